@@ -42,10 +42,13 @@ def representable(v):
                 or inspect.isbuiltin(v))
 
 
+AREPR = None  # C20 installs the contract's own a_repr here
+
+
 def arepr(v):
     import icontract._globals
 
-    return icontract._globals.aRepr.repr(v)
+    return (AREPR or icontract._globals.aRepr).repr(v)
 
 
 def bindings(role, lam_params, inputs):
